@@ -19,6 +19,8 @@ DICT = [
     "()", "(a: b)", "(a: b,)", "[", "[a b]", "...", "$args...", "as *", "with (", "show ", "hide ", "from ", "to ",
     "through ", "in ", "using (", ":not(", ":is(", ":where(", ":nth-child(2n+1 of ", "::before", ":hover",
     "[a=b]", "[a|=\"b\" i]", "~", ">", "||", "|", "@", "#", "$", "!", "=", "?", "`", "^",
+    # non-ASCII white space (also at the start of a line: error rendering measures columns and bytes there)
+    "\u00a0", "\u3000", "\u2003", "\u2028", "\u0085", "\n\u3000", "\n\u3000\u3000", "\n \u00a0", "\n\u00a0\u00a0\u00a0", "\n\u2003}", "\n\u3000}",
 ]
 
 
